@@ -351,6 +351,8 @@ def run(ctx):
     ctx.obs[before:] = keep
     # R4 one application per recipe step
     addressed_selection(ctx)
+    from .c08 import recorded_operands
+    recorded_operands(ctx, 'C07.R4', only=('transfer', 'remove', 'fill_to'))
     from .c09 import record_protocol
     before = len(ctx.obs)
     record_protocol(ctx, 'C07.R4x', once_rule='C07.R4')
